@@ -627,7 +627,24 @@ func c18r3(p *Program, r *Report) {
 				if isNil(info, last) {
 					fb, _ := facts.Before(rs)
 					if v, known := fb.KnownStr(errVar + " == nil"); !known || !v {
-						okErr = false
+						// the variable may live in the branch that decodes only: on every path that went through the
+						// Decode call it is known to be nil at this return
+						g.markNodes = map[ast.Node]string{p.stmtOf(site.Call, site.Fn): "decoded"}
+						ps := g.GuardFactsPSAbout(func(atom string) bool { return strings.HasPrefix(atom, "§") || mentions(atom, errVar) })
+						ds, has := ps.Before(rs)
+						g.markNodes = nil
+						okPS := has && len(ds) > 0
+						for _, d := range ds {
+							if !d.m["§decoded"] {
+								continue
+							}
+							if v2, k2 := d.KnownStr(errVar + " == nil"); !k2 || !v2 {
+								okPS = false
+							}
+						}
+						if !okPS {
+							okErr = false
+						}
 					}
 				}
 			}
